@@ -50,6 +50,54 @@ proof fn lemma_sound_facts_intro<V>(n: NfaBuilder<u8, V>)
     requires fail_suffix(n), opos_sound(n),
     ensures sound_facts(n),
 { reveal(sound_facts); }
+// ---- leftmost kinds: what a dead fail link means (label-generic; included with u8 -> char for the char-wise units) ----
+// an occurrence of a registered pattern inside x: x[st .. st+len]
+spec fn occ<V>(n: NfaBuilder<u8, V>, x: Seq<u8>, st: int, len: int) -> bool {
+    0 <= st && 0 < len && st + len <= x.len() && is_registered(n, x.subrange(st, st + len))
+}
+// every occurrence inside x lies in the last k symbols of x
+spec fn within<V>(n: NfaBuilder<u8, V>, x: Seq<u8>, k: int) -> bool {
+    forall|st: int, len: int| #[trigger] occ(n, x, st, len) ==> st >= x.len() - k
+}
+// the occurrence (st, len) inside path(s) starts before every proper suffix of path(s) that is a trie node
+spec fn dead_wit<V>(n: NfaBuilder<u8, V>, s: int, st: int, len: int) -> bool {
+    &&& occ(n, path(n, s), st, len)
+    &&& forall|q: Seq<u8>| is_suffix(q, path(n, s)) && q.len() < path(n, s).len() && #[trigger] t_node(n, q) ==> st < path(n, s).len() - q.len()
+}
+// "nothing that is still running can beat a match already seen": falling back from s would lose an occurrence
+spec fn dead_sem<V>(n: NfaBuilder<u8, V>, s: int) -> bool { exists|st: int, len: int| #[trigger] dead_wit(n, s, st, len) }
+// the link f of s while the pass is running: dead only if dead_sem; a live link of a state without output only if !dead_sem
+spec fn lm_dead_link<V>(n: NfaBuilder<u8, V>, s: int, f: int) -> bool {
+    &&& f == 1 ==> dead_sem(n, s)
+    &&& f != 1 ==> (dead_sem(n, s) ==> n.states@[s].output.is_some())
+}
+// the finished pass: a link is dead exactly if dead_sem
+#[verifier::opaque]
+spec fn lm_dead_ok<V>(n: NfaBuilder<u8, V>) -> bool {
+    forall|s: int| 2 <= s < n.states@.len() ==> (((#[trigger] n.states@[s]).fail == 1) <==> dead_sem(n, s))
+}
+proof fn lemma_lm_dead_get<V>(n: NfaBuilder<u8, V>, s: int)
+    requires lm_dead_ok(n), 2 <= s < n.states@.len(),
+    ensures (n.states@[s].fail == 1) <==> dead_sem(n, s),
+{ reveal(lm_dead_ok); }
+// the output position of s (read from b; outputs and links of n): a record carrying its own (value, length) if s has an output, otherwise
+// the position of its fail target (all kinds; under the leftmost kinds this is how a running match inherits a candidate)
+spec fn inh_at<V>(n: NfaBuilder<u8, V>, b: NfaBuilder<u8, V>, s: int) -> bool {
+    let o = opt_n(b.states@[s].output_pos); let f = n.states@[s].fail as int;
+    match n.states@[s].output {
+        Some(x) => o != 0 && o <= b.outputs@.len() && b.outputs@[o - 1].value == x.0 && b.outputs@[o - 1].length == x.1@,
+        None => o == opt_n(b.states@[f].output_pos),
+    }
+}
+#[verifier::opaque]
+spec fn opos_inherit<V>(n: NfaBuilder<u8, V>) -> bool {
+    &&& n.states@[0].output_pos.is_none() && n.states@[1].output_pos.is_none()
+    &&& forall|s: int| 2 <= s < n.states@.len() ==> #[trigger] inh_at(n, n, s)
+}
+proof fn lemma_opos_inherit_get<V>(n: NfaBuilder<u8, V>, s: int)
+    requires opos_inherit(n), 2 <= s < n.states@.len(),
+    ensures inh_at(n, n, s), n.states@[0].output_pos.is_none(), n.states@[1].output_pos.is_none(),
+{ reveal(opos_inherit); }
 // the trie built by `add` is the tree the double-array stage expects
 proof fn lemma_trie_gives_tree<V>(n: NfaBuilder<u8, V>)
     requires trie_ok(n), reach_ok(n), n.states@.len() <= u32::MAX as nat + 1,
